@@ -24,7 +24,7 @@ var c07Kinds = []string{"caller-error", "duplicate", "empty-value", "missing-fk-
 	"pre-commit-action-error-then-ok-action", "unusable-key-in-patch", "veto-update-in-patch",
 	"pre-commit-action-error-via-derived-system-ctx", "unusable-key-via-child-store", "unusable-key-update-via-child-store",
 	"pre-commit-action-error-registered-before-tx", "unstorable-tag-nested-in-list", "unstorable-tag-top-level-in-patch",
-	"missing-link-target-in-persisted-link-set", "missing-link-target-in-persisted-link-set-via-child-store", "self-id-reference-to-missing-target", "veto-cascaded-delete-of-child-entity"}
+	"missing-link-target-in-persisted-link-set", "missing-link-target-in-persisted-link-set-via-child-store", "self-id-reference-to-missing-target", "veto-cascaded-delete-of-child-entity", "veto-delete-where", "veto-delete-where-not-found-typed"}
 
 var c07Entries = []string{"update", "nested-update", "batch"}
 
@@ -219,6 +219,21 @@ func failingVariant(kind string, m *kit.Model) (c07Variant, bool) {
 			}
 		}
 		return v, false
+	case "veto-delete-where", "veto-delete-where-not-found-typed":
+		// a bulk delete by filter; the delete of one matching entity is refused by a constraint (in the second kind with
+		// an error of the not-found type, as a constraint raises when something it needs is missing)
+		for _, id := range c06IDs["targets"] {
+			e, ok := m.Ents["targets"][id]
+			if !ok {
+				continue
+			}
+			if probe := m.Clone(); len(probe.Delete("targets", id, false)) == 0 {
+				v.failing = &kit.Op{Kind: "deletewhere", Store: "targets", Spec: &kit.EntSpec{Name: e.Name}}
+				v.arm = [3]string{"targets", id, "deleted"}
+				return v, true
+			}
+		}
+		return v, false
 	case "veto-parent-on-child-create":
 		// the op goes through the child store, the veto is raised by a constraint of the parent store
 		v.failing = &kit.Op{Kind: "create", Store: "kids", ID: fresh("things"), Spec: &kit.EntSpec{Name: "fresh-name", Extra: "ex"}}
@@ -364,6 +379,7 @@ func runC07(c c07Case) kit.Result {
 						}
 						return nil
 					}
+					veto.NotFoundTyped = kind == "veto-delete-where-not-found-typed"
 					veto.Arm(v.arm[0], v.arm[1], v.arm[2])
 					_, opErr = w.Exec(ctx, *v.failing)
 					veto.Disarm()
